@@ -720,4 +720,95 @@ theorem free_laws : Laws Free where
     intro k l
     simp [Free]
 
+/-- session keys a node holds for circuit id `cid` as a joined party (exit socket first, else relay route) -/
+def entryKeys (n : Node Sess) (cid : Nat) : Option Sess :=
+  match n.exits cid with
+  | some h => some h.keys
+  | none => (n.relays cid).map (·.keys)
+
+/-- no circuit id is both an exit socket and a relay route -/
+def Disjoint (n : Node Sess) : Prop := ∀ cid, n.exits cid = none ∨ n.relays cid = none
+
+/-- the relay's fresh outgoing circuit id (`_generate_circuit_id`) of the pending extend that a CREATED event pairs
+    is not already one of the node's exit sockets or relay routes -/
+def FreshTo (n : Node Sess) : Ev Tag Blob → Prop
+  | .created _ ident _ _ _ _ =>
+    ∀ req, n.creates ident = some req → req.toCid ≠ req.fromCid →
+      n.exits req.toCid = none ∧ n.relays req.toCid = none
+  | _ => True
+
+/-- exits / relays after one step: only on_create (adds an exit socket under an unused id) and the relay branch of
+    on_created (moves an exit socket to a pair of relay routes with the same keys) touch them -/
+theorem step_joined [DecidableEq Tag] (C : Crypto Tag Sess Blob) (n : Node Sess) (e : Ev Tag Blob) :
+    ((step C n e).1.exits = n.exits ∧ (step C n e).1.relays = n.relays) ∨
+    (∃ cid h, n.exits cid = none ∧ n.relays cid = none ∧ n.circuits cid = none ∧
+      (step C n e).1.exits = upd n.exits cid (some h) ∧ (step C n e).1.relays = n.relays) ∨
+    (∃ cid' ident key auth cands env req ex, e = .created cid' ident key auth cands env ∧
+      n.creates ident = some req ∧ n.exits req.fromCid = some ex ∧
+      (step C n e).1.exits = upd n.exits req.fromCid none ∧
+      (step C n e).1.relays = upd (upd n.relays req.toCid (some ⟨req.fromCid, req.peer, ex.keys, false⟩))
+        req.fromCid (some ⟨req.toCid, req.toPeer, ex.keys, true⟩)) := by
+  have origin : ∀ cid ident key auth cands env,
+      (originAnswer C n cid ident key auth cands env).1.exits = n.exits ∧
+      (originAnswer C n cid ident key auth cands env).1.relays = n.relays := by
+    intro cid ident key auth cands env
+    unfold originAnswer
+    split
+    · exact ⟨rfl, rfl⟩
+    · split
+      · exact ⟨rfl, rfl⟩
+      · split
+        · exact ⟨rfl, rfl⟩
+        · exact ⟨rfl, rfl⟩
+  cases e with
+  | createCircuit cid goal re fh env => left; exact ⟨rfl, rfl⟩
+  | created cid ident key auth cands env =>
+    cases hcr : n.creates ident with
+    | none => left; simp only [step, onCreated, hcr]; exact origin cid ident key auth cands env
+    | some req =>
+      cases hex : n.exits req.fromCid with
+      | none => left; simp [step, onCreated, hcr, hex]
+      | some ex =>
+        right; right
+        refine ⟨cid, ident, key, auth, cands, env, req, ex, rfl, hcr, hex, ?_, ?_⟩ <;>
+          simp only [step, onCreated, hcr, hex]
+  | extended cid ident key auth cands env => left; exact origin cid ident key auth cands env
+  | retryTimeout cid env =>
+    left; simp only [step, retryTimeout]; split <;> exact ⟨rfl, rfl⟩
+  | sendExtend cid cands tries env => left; simp only [step]; split <;> exact ⟨rfl, rfl⟩
+  | sendInitialCreate cid cands tries env => left; simp only [step]; split <;> exact ⟨rfl, rfl⟩
+  | removeCircuit cid => left; exact ⟨rfl, rfl⟩
+  | create cid ident nodePk key y offered =>
+    simp only [step, onCreate]
+    split
+    · left; exact ⟨rfl, rfl⟩
+    · split
+      · left; exact ⟨rfl, rfl⟩
+      · split
+        · left; exact ⟨rfl, rfl⟩
+        · next hused =>
+          split
+          · left; exact ⟨rfl, rfl⟩
+          · right; left
+            simp only [Bool.or_eq_true, not_or, Option.isSome_iff_ne_none, ne_eq, Classical.not_not] at hused
+            exact ⟨cid, _, hused.2, hused.1.2, hused.1.1, rfl, rfl⟩
+  | extend cid ident nodePk key ag toCid number =>
+    left
+    simp only [step, onExtend]
+    split
+    · exact ⟨rfl, rfl⟩
+    · split
+      · exact ⟨rfl, rfl⟩
+      · split
+        · exact ⟨rfl, rfl⟩
+        · split <;> exact ⟨rfl, rfl⟩
+  | createdExpire cid => left; exact ⟨rfl, rfl⟩
+  | createExpire number => left; exact ⟨rfl, rfl⟩
+
+/-- every step of a trace pairs only fresh outgoing circuit ids -/
+def RunFresh [DecidableEq Tag] (C : Crypto Tag Sess Blob) : Node Sess → List (Ev Tag Blob) → Prop
+  | _, [] => True
+  | n, e :: es => FreshTo n e ∧ RunFresh C (step C n e).1 es
+
+
 end Ipv8.C08
